@@ -42,7 +42,8 @@ Termination: ``outcome`` is ``"ok"`` (all tasks finished), ``"deadlock"`` (no op
 some task is unfinished; ``waits`` maps task name -> wait reason) or ``"budget"`` (more than
 ``max_steps`` yield points: livelock guard).  In the last two cases every unfinished task
 gets ``HarnessAbort`` raised inside its thread (at the yield point where it is parked) and
-is joined; no thread outlives ``run()``.
+is joined; no task body outlives ``run()`` (the OS threads are
+pooled and parked between cases, see ``_Worker``).
 
 Everything is deterministic for a given (program, strategy input).
 
@@ -62,6 +63,7 @@ import os
 import sys
 import threading
 import traceback
+import _thread
 
 from vlib.core import HarnessError
 
@@ -191,6 +193,40 @@ def strategy_from_case(s):
 # ----------------------------------------------------------------------------- tasks
 
 
+def _signal():
+    """A binary semaphore (initially 0) on a raw lock: release() = signal, acquire() = wait."""
+    l = _thread.allocate_lock()
+    l.acquire()
+    return l
+
+
+class _Worker:
+    """Pooled OS thread (creating a thread costs ~1 ms here, a case needs 2-4).  A worker
+    is parked on a raw lock between cases; task *bodies* never outlive Scheduler.run()."""
+
+    def __init__(self):
+        self.go = _signal()
+        self.job = None
+        self.ident = _thread.start_new_thread(self._loop, ())
+
+    def _loop(self):
+        while True:
+            self.go.acquire()
+            job, self.job = self.job, None
+            if job is None:
+                return
+            job()
+
+
+_POOL = []
+
+
+def shutdown_pool():
+    """Terminate the idle pooled threads (they are daemonic anyway)."""
+    while _POOL:
+        _POOL.pop().go.release()
+
+
 class TaskInfo:
     __slots__ = ("name", "result", "exc", "tb", "aborted", "finished")
 
@@ -208,14 +244,16 @@ class _Task:
         self.idx = idx
         self.name = name
         self.fn = fn
-        self.sem = threading.Semaphore(0)
+        self.sem = _signal()  # baton for this task (binary: at most one signal outstanding)
+        self.exited = _signal()
         self.state = "ready"  # ready | blocked | done
         self.ready = None  # predicate while blocked
         self.reason = None
         self.deadline = None
         self.timed_out = False
         self.aborting = False
-        self.thread = None
+        self.ident = None
+        self.worker = None
         self.info = TaskInfo(name)
 
 
@@ -253,10 +291,11 @@ class Scheduler:
         self.log = []
         self.res = Result()
         self.res.log = self.log
-        self._done = threading.Semaphore(0)
+        self._done = _signal()
         self._stopping = False
         self._ran = False
         self._vtime = _VTime(self)
+        self._harness_error = None
 
     # -- construction -----------------------------------------------------------
     def spawn(self, name, fn):
@@ -294,9 +333,11 @@ class Scheduler:
             res.outcome = "ok"
             return res
         for t in self.tasks:
-            t.thread = threading.Thread(target=self._bootstrap, args=(t,), name="sched-" + t.name, daemon=True)
-            t.thread.start()
-            self._by_ident[t.thread.ident] = t
+            w = t.worker = _POOL.pop() if _POOL else _Worker()
+            t.ident = w.ident
+            self._by_ident[t.ident] = t
+            w.job = (lambda t=t: self._bootstrap(t))
+            w.go.release()
         try:
             opts = self._options()
             i = self.strategy.decide(self, None, opts) if len(opts) > 1 else 0
@@ -318,17 +359,26 @@ class Scheduler:
                 if t.state != "done":
                     t.aborting = True
                     t.sem.release()
-                    t.thread.join(self.stuck_timeout)
-                    if t.thread.is_alive():
-                        raise HarnessError("task %r did not stop after HarnessAbort" % t.name)
-                else:
-                    t.thread.join(self.stuck_timeout)
+                if not t.exited.acquire(timeout=self.stuck_timeout):
+                    raise HarnessError("task %r did not stop after HarnessAbort" % t.name)
+                _POOL.append(t.worker)
+                t.worker = None
         for t in self.tasks:
             res.tasks[t.name] = t.info
+            if isinstance(t.info.exc, HarnessError):
+                self._harness_error = self._harness_error or t.info.exc
+        if self._harness_error is not None:
+            raise self._harness_error
         res.now = self.now
         return res
 
     def _bootstrap(self, t):
+        try:
+            self._task_main(t)
+        finally:
+            t.exited.release()
+
+    def _task_main(self, t):
         t.sem.acquire()
         info = t.info
         if not t.aborting:
@@ -354,6 +404,11 @@ class Scheduler:
             self._switch_from(t, ("task-end", t.name))
         except HarnessAbort:
             pass
+        except BaseException as e:  # harness failure while handing the baton on: tell run()
+            self._harness_error = self._harness_error or e
+            if self.res.outcome is None:
+                self.res.outcome = "harness-error"
+                self._done.release()
 
     # -- core ---------------------------------------------------------------------
     def _me(self):
@@ -554,6 +609,13 @@ class CoopLock:
         self.release()
 
 
+class _Token:
+    __slots__ = ("set",)
+
+    def __init__(self):
+        self.set = False
+
+
 class CoopCondition:
     """threading.Condition look-alike on a CoopLock (wait/notify/notify_all, wait_for)."""
 
@@ -561,7 +623,7 @@ class CoopCondition:
         self.s = sched
         self._lock = lock
         self.name = name
-        self._waiters = []  # tokens (lists [notified])
+        self._waiters = []  # _Token per waiting task (identity matters)
         self.acquire = lock.acquire
         self.release = lock.release
 
@@ -577,15 +639,14 @@ class CoopCondition:
         me = lock._who()
         if lock.owner is None or lock.owner != me:
             raise RuntimeError("cannot wait on un-acquired lock")
-        tok = [False]
+        tok = _Token()
         self._waiters.append(tok)
         lock.owner = None
         s.log.append(("wait", me, self.name))
         try:
-            notified = s.block_until(lambda: tok[0], ("cond", self.name), timeout, tag=("wait", self.name))
+            notified = s.block_until(lambda: tok.set, ("cond", self.name), timeout, tag=("wait", self.name))
         finally:
-            if tok in self._waiters:
-                self._waiters.remove(tok)
+            self._waiters = [w for w in self._waiters if w is not tok]
         s.log.append(("woken", me, self.name, bool(notified)))
         # re-acquire (may park again; no timeout, like threading.Condition)
         if lock.owner is not None:
@@ -617,9 +678,9 @@ class CoopCondition:
         for tok in list(self._waiters):
             if woken >= n:
                 break
-            if not tok[0]:
-                tok[0] = True
-                self._waiters.remove(tok)
+            if not tok.set:
+                tok.set = True
+                self._waiters = [w for w in self._waiters if w is not tok]
                 woken += 1
         self.s.log.append(("notify", lock._who(), self.name, woken))
 
